@@ -29,9 +29,12 @@ FAULTS = {
     'malformed-expression': ['addi x8, x8, 1 +', 'dw (1', 'YY = 1 +', 'addi x8, x8, 1 2', 'dw 3 3', 'addi x8, x8, ))', 'dw 0x', 'addi x8, x8, 08',
                              # expressions whose evaluation raises every family of Python exception
                              'addi x8, x8, [7][1]', 'dw {}[0]', 'addi x8, x8, "ab"[5]', 'dw (1).foo', 'dw 1 << -1', 'dw 1 // 0', 'addi x8, x8, 7 % 0', 'dw abs(1)', 'dw -',
-                             'WW = [7][1]', 'dw 1 if', 'li x8, {}[0]\nalign 4', 'lui x8, %hi([1][2])', 'dw int'],
+                             'WW = [7][1]', 'dw 1 if', 'li x8, {}[0]\nalign 4', 'lui x8, %hi([1][2])', 'dw int',
+                             # malformed modifiers and character literals
+                             'addi x8, x8, %lo', 'dw %offset', 'dw %position', 'dw %offset(', 'dw %offset(L0) + 4', 'dw %position(L0', 'lui x8, %hi', 'lui x8, %hi(', 'addi x8, x8, %lo()',
+                             "db '\\'\nalign 4", "db '\\x'\nalign 4", "li x8, '\\u12'\nalign 4", "QQ = '\\'", "dw 'ab'", "dw ''"],
     'non-integer': ['addi x8, x8, 1.5', 'dw 2 / 1', 'ZZ = 1.5', 'addi x8, x8, "a"', 'dw 1e3', 'dw None', 'dw ()', 'dw [1]', 'dw "a" * 2', 'addi x8, x8, 1 < 2', 'dw 2 ** -1', 'dw lambda: 1'],
-    'error-directive': ['error boom', '  error this board is not supported # really'],
+    'error-directive': ['error boom', '  error this board is not supported # really', 'error see docs\\usage.txt', 'error C:\\new\\x', 'error trailing backslash \\'],
     'missing-include': ['include nothere.asm', 'include "sub/nothere.asm"'],
     'missing-include-bytes': ['include_bytes nothere.bin'],
 }
